@@ -190,7 +190,8 @@ def compatible : FieldType → FieldType → Bool
       | some (nk, c), some (ok, ot) => nk == ok && c.1 ot
       | some _, none => false
       | none, some _ => false
-      | none, none => cs.all (fun c => match okts.lookup c.1 with
+      -- the untyped map `Map({})` cannot be narrowed to explicit keys (repo commit 0e46ab3)
+      | none, none => if okts.isEmpty && !cs.isEmpty then false else cs.all (fun c => match okts.lookup c.1 with
         | some ot => c.2.1 ot
         | none => c.2.2))
     | _ => false
